@@ -12,7 +12,7 @@ DISTINCT_RULE = (
     "Betfair (live double) and Betdaq clients; distinct = (kind, order status at request, refusal reason, force) cells of refused requests, (kind, force) of accepted ones, "
     "(kind, size class) of packages"
 )
-RULES = ["refused", "accepted", "package", "group-order", "package-version", "tx-end"]
+RULES = ["refused", "accepted", "package", "group-order", "package-version", "tx-end", "own-account"]
 MINIMA = {"quick": {"rule_refused": 8000, "rule_accepted": 20000, "rule_package": 3000, "rule_tx-end": 5000}, "thorough": {"rule_refused": 200000}}
 ASSUMPTIONS = [
     "snapshot = order fields, trade status/log, blotter membership and views, runner context, transaction pending lists (vf.simrun.world_view)",
@@ -29,6 +29,8 @@ def plan(tier, seed):
         cases.append({"mode": ("simbatch", "simctl", "live", "simctl", "betdaq", "simbatch", "live")[i % 7], "seed": seed, "idx": i})
     # several markets of one event processed together (requests in flight on one market while a sibling updates or closes)
     cases += [{"mode": "simevent", "seed": seed, "idx": i} for i in range(250 if tier == "quick" else 5000)]
+    # several Betfair accounts in one framework: every accepted request reaches the exchange once, through the account of its order
+    cases += [{"mode": "accounts", "seed": seed, "idx": i} for i in range(150 if tier == "quick" else 3000)]
     # directed case for the listed finding C02-reoffer-leaves-violation-msg (a live order offered again and refused by validate_order)
     cases.insert(0, {"mode": "simctl", "seed": seed, "idx": 1, "directed_reoffer": True})
     return cases
@@ -360,6 +362,15 @@ def run(desc):
     mode = desc["mode"]
     if mode == "simevent":
         run_simevent(desc, out)
+        return out.result()
+    if mode == "accounts":
+        from .. import livecases
+
+        res = livecases.accounts_run(desc["seed"], desc["idx"])
+        out.rule("own-account", res["n_calls"])
+        for e in res["wrong_account"][:3]:
+            out.v("request-sent-through-another-clients-account", {"call": e["call"], "clients": res["n_clients"]}, detail=e)
+        out.d("accounts:%d:%d" % (res["n_clients"], min(res["n_calls"], 12)))
         return out.result()
     sample = None
     if mode == "simbatch":
